@@ -18,7 +18,9 @@ var SemanticEdits = []string{"rename-call", "change-literal", "add-stage-in", "a
 	// shape of a collection literal (at any depth of a literal binding)
 	"literal-array-drop-last", "literal-array-append", "literal-map-drop-key", "literal-map-add-key",
 	// same call name, another callee with a different signature, both stages declared on both sides
-	"switch-callee-extra-out", "switch-callee-toggle-split"}
+	"switch-callee-extra-out", "switch-callee-toggle-split",
+	// definition of a struct type that parameters of called stages have
+	"struct-add-member", "struct-retype-member", "struct-drop-member", "struct-member-array"}
 
 // PreEdit names the edit that is applied to BOTH sides before kind is applied
 // to the edited side ("" for none).
@@ -126,6 +128,52 @@ func bumpLiteral(v *Val) bool {
 	case VObj:
 		for _, k := range v.Keys() {
 			if bumpLiteral(v.O[k]) {
+				return true
+			}
+		}
+	}
+	return false
+}
+
+func typeMentions(t *T, name string) bool {
+	for x := t; x != nil; x = x.Elem {
+		if x.K == TStruct && x.Name == name {
+			return true
+		}
+	}
+	return false
+}
+
+// structUsed: some parameter of a called stage, or of a pipeline, has the
+// struct type (directly, in a collection, or through another used struct).
+func structUsed(p *Program, name string) bool {
+	for _, s := range p.Stages {
+		if !stageCalled(p, s.Name) {
+			continue
+		}
+		for _, ps := range [][]Param{s.Ins, s.Outs, s.ChunkIns, s.ChunkOuts} {
+			for _, q := range ps {
+				if typeMentions(q.T, name) {
+					return true
+				}
+			}
+		}
+	}
+	for _, pl := range p.Pipelines {
+		for _, ps := range [][]Param{pl.Ins, pl.Outs} {
+			for _, q := range ps {
+				if typeMentions(q.T, name) {
+					return true
+				}
+			}
+		}
+	}
+	for _, sd := range p.Structs {
+		if sd.Name == name {
+			continue
+		}
+		for _, f := range sd.Fields {
+			if typeMentions(f.T, name) && structUsed(p, sd.Name) {
 				return true
 			}
 		}
@@ -267,6 +315,38 @@ func ApplyEdit(p *Program, kind string, site int) bool {
 			if hit() {
 				s.Outs = append(s.Outs, Param{T: IntT, Name: "verif_extra_out"})
 				return true
+			}
+		}
+	case "struct-add-member", "struct-retype-member", "struct-drop-member", "struct-member-array":
+		for _, sd := range p.Structs {
+			if !structUsed(p, sd.Name) {
+				continue
+			}
+			switch kind {
+			case "struct-add-member":
+				if hit() {
+					sd.Fields = append(sd.Fields, Param{T: IntT, Name: "verif_extra_member"})
+					return true
+				}
+			case "struct-drop-member":
+				if len(sd.Fields) > 1 && hit() {
+					sd.Fields = sd.Fields[:len(sd.Fields)-1]
+					return true
+				}
+			case "struct-retype-member":
+				for i := range sd.Fields {
+					if sd.Fields[i].T.K == TInt && hit() {
+						sd.Fields[i].T = FloatT
+						return true
+					}
+				}
+			case "struct-member-array":
+				for i := range sd.Fields {
+					if sd.Fields[i].T.K == TInt && hit() {
+						sd.Fields[i].T = ArrayOf(IntT)
+						return true
+					}
+				}
 			}
 		}
 	case "retype-param":
